@@ -45,6 +45,7 @@ def _prof(name: str) -> Prof:
                     notations=(K.kore_top, K.kore_not, K.kore_and, K.kore_next, K.kore_implies, K.kore_bottom, K.in_sort, K.kore_dv, K.kore_kseq),
                 ),
                 'binder': Prof(symbol=0, svar=False, mu=False, app=False, implies=False, exists=True, metavars=1, notations=(D.functional, S.forall(0), S.forall(1), K.sorted_exists(0), P.neg)),
+                'rawops': Prof(symbol=0, svar=False, mu=False, app=True, implies=False, exists=True, metavars=2, raw_inst=True),
                 'rawbody': Prof(symbol=0, svar=False, mu=False, exists=False, app=False, metavars=2),
                 'rawval': Prof(symbol=0, svar=False, mu=False, exists=False, app=False, implies=False, metavars=2),
                 'small': Prof(symbol=0, svar=False, mu=False, app=False, metavars=1, notations=(P.bot, P.neg)),
@@ -194,6 +195,8 @@ def levels(tier: str) -> list[dict]:
         L.append(dict(label=f'eq/binder/{n1}x{n2}', module=M, fn='h_eq', kwargs=dict(n1=n1, n2=n2, prof='binder'), budget_s=bud, required=n1 <= 3))
     for n in ([1, 3] if q else [1, 3, 5]):
         L.append(dict(label=f'eq/partial-instantiate/body={n},val<=1', module=M, fn='h_eq_raw', kwargs=dict(n=n, m=1), budget_s=bud, required=n <= 3, twin=(n == 3)))
+    for n in ([3, 4] if q else [3, 4, 5]):
+        L.append(dict(label=f'ops/partial-instantiate-of-open-bodies/n={n}', module=M, fn='h_ops', kwargs=dict(n=n, prof='rawops'), budget_s=bud, required=n <= 4, twin=False))
     for pn in ('binder',):
         for n in ([2, 3, 4] if q else [2, 3, 4, 5]):
             L.append(dict(label=f'ops/{pn}/n={n}', module=M, fn='h_ops', kwargs=dict(n=n, prof=pn), budget_s=bud, required=n <= 3, twin=False))
